@@ -1223,7 +1223,11 @@ def shuffle(lst, random=None):
 
     '''
 
-    _libsc3.main._rgen.shuffle(lst, random)
+    # `random.Random.shuffle` lost its `random` parameter in Python 3.11.
+    if random is None:
+        _libsc3.main._rgen.shuffle(lst)
+    else:
+        _libsc3.main._rgen.shuffle(lst, random)
 
 def scramble(lst, random=None):
     '''Return a new shuffled list from `lst`.
@@ -1234,7 +1238,7 @@ def scramble(lst, random=None):
     '''
 
     lst = lst.copy()
-    _libsc3.main._rgen.shuffle(lst, random)
+    shuffle(lst, random)
     return lst
 
 # mirror, mirror1, mirror2  # one mirror with mode.
